@@ -308,6 +308,15 @@ def run(v):
                 if d:
                     failures.append((f"{PROP}:{d.split(' changed')[0]}", {"what": d, "class": name, "history": HC.jsonable(r["ops"])}))
                     continue
+                # the same network carrying structured attribute values (tuples, nested lists / dicts holding tuples): a callable that
+                # normalises or serialises attribute values must do so on its own copy
+                if len(all_recs) % 2 == 0 and H.num_nodes:
+                    H2 = enrich(H)
+                    d = sweep(H2, surf, tmp, rng, counts)
+                    if d:
+                        failures.append((f"{PROP}:{d.split(' changed')[0]}:structured-attributes",
+                                         {"what": d + " (input carrying tuple-valued and nested attribute values)", "class": name,
+                                          "history": HC.jsonable(r["ops"]), "structured_attributes": True}))
                 if sim is hgsim:
                     # the network after the whole sweep against the model state of its history
                     try:
@@ -363,6 +372,17 @@ def run(v):
     base.conclude(v, proof, reports, failures, errors)
 
 
+def enrich(H):
+    """a copy of H with tuple-valued and nested attribute values on a node, an edge and the network"""
+    H2 = H.copy()
+    rich = {"pos": (0.5, 1.5), "tags": ["a", ("b", 1)], "meta": {"k": (1, 2), "l": [3, (4,)]}}
+    H2.set_node_attributes({list(H2.nodes)[0]: copy.deepcopy(rich)})
+    if H2.num_edges:
+        H2.set_edge_attributes({list(H2.edges)[-1]: copy.deepcopy(rich)})
+    H2["rich"] = copy.deepcopy(rich)
+    return H2
+
+
 def replay(payload):
     d = payload.get("detail", payload)
     ops = HC.unjson(d["history"])
@@ -370,7 +390,7 @@ def replay(payload):
     r = sim.run_history(ops)
     tmp = tempfile.mkdtemp(prefix="xgi_c08_")
     try:
-        dsc = sweep(r["net"], api_surface.surface(), tmp, random.Random(0), {})
+        dsc = sweep(enrich(r["net"]) if d.get("structured_attributes") else r["net"], api_surface.surface(), tmp, random.Random(0), {})
     finally:
         shutil.rmtree(tmp, ignore_errors=True)
     print("oracle:", dsc or "holds")
